@@ -6,7 +6,7 @@ use super::pool::*;
 use bytes::{Buf, BufMut, Bytes, BytesMut};
 use std::fmt::Write as _;
 
-const N_OPS: usize = 27;
+const N_OPS: usize = 28;
 
 /// size of the allocation the handle lives in, as the ledger (or H2) sees it
 fn alloc_size(s: &Slot) -> usize {
@@ -57,7 +57,7 @@ pub fn mut_step(d: &mut Driver, ch: &mut dyn Chooser, i: usize, full: bool) {
     if full && !ch.exhaustive() && matches!(op, 0..=2 | 14 | 17) {
         op = 20 + ch.choose(6);
         if op == 25 {
-            op = 26;
+            op = 27;
         }
     }
     let mut s = d.pool.swap_remove(i);
@@ -496,6 +496,39 @@ pub fn mut_step(d: &mut Driver, ch: &mut dyn Chooser, i: usize, full: bool) {
                 expect_same_region(d, "M::trunc_restore", &s, p0, cap);
                 d.cell(format!("M|{rname}|trunc_restore|{ca}|ok"));
             }
+        }
+        26 => {
+            // extend() with an iterator (size hint (0, None)) that panics after `k` items: whatever the crate had
+            // appended by then may stay, but the handle must remain a valid buffer holding the old bytes followed by a
+            // prefix of the items (all other monitors -- ledger, ranges, regions, leak balance -- run afterwards)
+            let n = if ch.exhaustive() { [3usize, 40][ch.choose(2)] } else { 1 + ch.choose(120) };
+            let k = if ch.exhaustive() { [0usize, 2, n - 1][ch.choose(3)] } else { ch.choose(n) };
+            let nid = d.fresh_id();
+            let data = gen_bytes(nid, n);
+            d.log(format!("extend M{sid} with an iterator that panics after {k} of {n} items"));
+            let m = mref(&mut s);
+            let mut i = 0usize;
+            let it = std::iter::from_fn(|| {
+                if i == k {
+                    panic!("iterator panics");
+                }
+                i += 1;
+                Some(data[i - 1])
+            });
+            mem::reset_events();
+            let r = crate::util::catch(|| m.extend(it));
+            d.count("extend_panicking_iter");
+            if r.is_ok() {
+                d.viol("C01", "extend-swallowed-panic", "extend returned although the iterator panicked");
+            }
+            let now = s.as_slice().to_vec();
+            let ok = now.len() >= len && now.len() <= len + k && now[..len] == s.model[..] && now[len..] == data[..now.len() - len];
+            if !ok {
+                d.viol("C01", "value-after-iterator-panic", &format!("after the iterator panicked at item {k} the handle holds {} bytes that are not the old {len} bytes plus a prefix of the items ({rname})", now.len()));
+            } else {
+                s.model = now;
+            }
+            d.cell(format!("M|{rname}|extend_panicking|{}|panic", if k <= cap - len { "fits" } else { "grows" }));
         }
         _ => {
             d.log(format!("drop M{sid}"));
